@@ -68,7 +68,7 @@ Inductive case :=
 | CJWK (inp : obj) (out : obj)
 (* one service of a DID document (id, @base of the document): populateServices -> populateRawServices *)
 | CSVC2 (did base : string) (inp : obj) (out : obj)
-(* did.ParseDocument -> JSONBytes (services are checked by CSVC2) *)
+(* did.ParseDocument -> JSONBytes, the whole document with its services *)
 | CDID (inp : json) (out : json)
 (* CreateDIDKeyByJwk of the NIST-curve public key (x, y): the bytes under the base58 layer of the did:key *)
 | CEC (code : N) (size : nat) (x y : Z) (mc : list N).
@@ -96,7 +96,7 @@ Definition check_case (c : case) : bool :=
   | CDID inp out =>
       match out with
       | JObj o => ojeq (roundtrip_did Fixed inp)
-                       (Some (JObj (filter (fun kv => negb (mem (fst kv) ["service"; "created"; "updated"; "proof"])) o)))
+                       (Some (JObj (filter (fun kv => negb (mem (fst kv) ["created"; "updated"; "proof"])) o)))
       | _ => false
       end
   | CEC code size x y mc =>
